@@ -353,7 +353,8 @@ Definition isNone {A} (o : option A) : bool := match o with None => true | _ => 
 (* __construct_byset(start, byxxx, base): None = ValueError (empty set) *)
 Definition construct_byset (interval start : Z) (byxxx : list Z) (base : Z) : option (list Z) :=
   let g := Z.gcd interval base in
-  let l := filter (fun num => (g =? 1) || ((num - start) mod g =? 0)) byxxx in
+  (* members outside 0..base-1 can never match and are skipped (e1e7505) *)
+  let l := filter (fun num => (0 <=? num) && (num <? base) && ((g =? 1) || ((num - start) mod g =? 0))) byxxx in
   match l with [] => None | _ => Some l end.
 
 Definition bad_setpos (p : Z) : bool := (p =? 0) || negb ((-366 <=? p) && (p <=? 366)).
@@ -459,6 +460,10 @@ Definition ctor (ev : env) (dtstart : option dt) (kw : kwargs) : res rule :=
     if match k_bysetpos kw with Some l => existsb bad_setpos l | None => false end
     then Err EValue else
     let o_setpos := match k_bysetpos kw with Some (x :: r) => OVals (x :: r) | _ => OAbsent end in
+    (* `if 0 in bymonthday: raise ValueError` (55654b4); every failure before the time set is a ValueError,
+       so the place of this test among them is not observable *)
+    if match k_bymonthday kw with Some l => existsb (fun x => x =? 0) l | None => false end
+    then Err EValue else
     (* defaults derived from the start *)
     let nodayparts := isNone (k_byweekno kw) && isNone (k_byyearday kw) && isNone (k_bymonthday kw)
                       && isNone (k_byweekday kw) && isNone (k_byeaster kw) in
